@@ -4,15 +4,25 @@
 //   split_join  split() with limits / min_fields vs the documented definition; join o split round trip
 //   quoted      split_quoted(join_quoted(v)) == v
 //   helpers     replace, trim, starts/ends_with, contains, case conversion, compare_icase, erase_all, pad, levenshtein
-//   all         first byte selects one of the four (used by the libFuzzer step)
+//   codec_long, split_join_long, quoted_long, helpers_long
+//               the same four bodies with c19::long_mode() on: primary strings of 13..5000 (rarely 65535..66000) bytes,
+//               hundreds to thousands (rarely > 65535) of fields / parts / occurrences, long separators / needles /
+//               drop sets, large limits / widths / line breaks — see "scale classes" in C19_common.hpp
+//   all         first byte selects one of the eight (used by the libFuzzer step)
 #include "C19_common.hpp"
 
-PBT_PROPERTY(codec) { c19_codec(src); }
-PBT_PROPERTY(split_join) { c19_split_join(src); }
-PBT_PROPERTY(quoted) { c19_quoted(src); }
-PBT_PROPERTY(helpers) { c19_helpers(src); }
+PBT_PROPERTY(codec) { c19::long_mode() = false, c19_codec(src); }
+PBT_PROPERTY(split_join) { c19::long_mode() = false, c19_split_join(src); }
+PBT_PROPERTY(quoted) { c19::long_mode() = false, c19_quoted(src); }
+PBT_PROPERTY(helpers) { c19::long_mode() = false, c19_helpers(src); }
+PBT_PROPERTY(codec_long) { c19::long_mode() = true, c19_codec(src); }
+PBT_PROPERTY(split_join_long) { c19::long_mode() = true, c19_split_join(src); }
+PBT_PROPERTY(quoted_long) { c19::long_mode() = true, c19_quoted(src); }
+PBT_PROPERTY(helpers_long) { c19::long_mode() = true, c19_helpers(src); }
 PBT_PROPERTY(all) {
-    switch (src.range(0, 3)) {
+    int t = (int)src.range(0, 7);
+    c19::long_mode() = t >= 4;
+    switch (t & 3) {
     case 0: c19_helpers(src); break;
     case 1: c19_split_join(src); break;
     case 2: c19_quoted(src); break;
